@@ -278,6 +278,86 @@ Demote(x) ==      \* f64 -> f32, round to nearest even on the fraction
             IF e > 127 THEN OK(MkF(32, Sign(x), 255, Zero(23)))
             ELSE OK(r \o <<Sign(x)>>)                                  \* overflow by rounding lands exactly on infinity's encoding
 
+
+-----------------------------------------------------------------------------
+(* 128-bit vectors: 128 bits, lane 0 in the lowest bits.  Lane-wise instructions whose lane function is one of the
+   scalar definitions above are checked through those (the driver packs scalar cases into lanes); here are the
+   instructions that cross lanes, change the lane width, take a scalar, or have no scalar counterpart. *)
+Lane(v, w, k) == SubSeq(v, k * w + 1, (k + 1) * w)                 \* k counts from 0
+RECURSIVE JoinLanes(_, _, _)
+JoinLanes(f, k, n) == IF k = n THEN <<>> ELSE f[k] \o JoinLanes(f, k + 1, n)
+MapLanes(n, F(_)) == JoinLanes([k \in 0..(n - 1) |-> F(k)], 0, n)
+(* a signed value of any width clamped into n bits, as a signed / as an unsigned result *)
+SatS(x, n) == IF LtS(x, SExt(MinS(n), Len(x))) THEN MinS(n) ELSE IF LtS(SExt(MaxS(n), Len(x)), x) THEN MaxS(n) ELSE Wrap(x, n)
+SatU(x, n) == IF Msb(x) = 1 THEN Zero(n) ELSE IF LtS(ZExt(Ones(n), Len(x)), x) THEN Ones(n) ELSE Wrap(x, n)
+Ext(x, n, signed) == IF signed THEN SExt(x, n) ELSE ZExt(x, n)
+IsNaNRes(r) == "nan" \in DOMAIN r
+OKV(bits) == [v |-> bits]
+
+VecEval(op, w, a, b, c) ==
+  LET n == 128 \div w          \* number of lanes of width w
+      cnt == IF Len(c) >= 32 THEN ToNat(SubSeq(c, 1, Log2(w))) ELSE 0          \* shift count modulo the lane width
+      idx == IF Len(c) >= 8 THEN ToNat(SubSeq(c, 1, 5)) ELSE 0                   \* lane index immediate
+      signed == op \in {"narrow_s", "extend_low_s", "extend_high_s", "extmul_low_s", "extmul_high_s", "extadd_s", "convert_low_s", "trunc_sat_zero_s", "extract_s"}
+  IN
+  CASE op = "vshl" -> OKV(MapLanes(n, LAMBDA k : ShlBy(Lane(a, w, k), cnt)))
+    [] op = "vshr_u" -> OKV(MapLanes(n, LAMBDA k : ShrUBy(Lane(a, w, k), cnt)))
+    [] op = "vshr_s" -> OKV(MapLanes(n, LAMBDA k : ShrSBy(Lane(a, w, k), cnt)))
+    \* w = width of the SOURCE lanes for the width-changing instructions
+    [] op \in {"narrow_s", "narrow_u"} ->
+         OKV(MapLanes(2 * n, LAMBDA k : LET x == IF k < n THEN Lane(a, w, k) ELSE Lane(b, w, k - n) IN
+                                        IF op = "narrow_s" THEN SatS(x, w \div 2) ELSE SatU(x, w \div 2)))
+    [] op \in {"extend_low_s", "extend_low_u"} -> OKV(MapLanes(n \div 2, LAMBDA k : Ext(Lane(a, w, k), 2 * w, signed)))
+    [] op \in {"extend_high_s", "extend_high_u"} -> OKV(MapLanes(n \div 2, LAMBDA k : Ext(Lane(a, w, k + n \div 2), 2 * w, signed)))
+    [] op \in {"extmul_low_s", "extmul_low_u"} -> OKV(MapLanes(n \div 2, LAMBDA k : Mul(Ext(Lane(a, w, k), 2 * w, signed), Ext(Lane(b, w, k), 2 * w, signed))))
+    [] op \in {"extmul_high_s", "extmul_high_u"} ->
+         OKV(MapLanes(n \div 2, LAMBDA k : Mul(Ext(Lane(a, w, k + n \div 2), 2 * w, signed), Ext(Lane(b, w, k + n \div 2), 2 * w, signed))))
+    [] op \in {"extadd_s", "extadd_u"} -> OKV(MapLanes(n \div 2, LAMBDA k : Add(Ext(Lane(a, w, 2 * k), 2 * w, signed), Ext(Lane(a, w, 2 * k + 1), 2 * w, signed))))
+    [] op = "dot" -> \* i32x4.dot_i16x8_s: the two products of each pair are added modulo 2^32
+         OKV(MapLanes(4, LAMBDA k : Add(Mul(SExt(Lane(a, 16, 2 * k), 32), SExt(Lane(b, 16, 2 * k), 32)),
+                                        Mul(SExt(Lane(a, 16, 2 * k + 1), 32), SExt(Lane(b, 16, 2 * k + 1), 32)))))
+    [] op = "q15mulr" -> \* sat16((a * b + 2^14) >> 15)
+         OKV(MapLanes(8, LAMBDA k : SatS(ShrSBy(Add(Mul(SExt(Lane(a, 16, k), 32), SExt(Lane(b, 16, k), 32)), ShlBy(One(32), 14)), 15), 16)))
+    [] op = "bitmask" -> OKV([i \in 1..32 |-> IF i <= n THEN Msb(Lane(a, w, i - 1)) ELSE 0])
+    [] op = "all_true" -> OKV(Bool(32, \A k \in 0..(n - 1) : ~IsZero(Lane(a, w, k))))
+    [] op = "any_true" -> OKV(Bool(32, ~IsZero(a)))
+    [] op = "swizzle" -> OKV(MapLanes(16, LAMBDA k : LET j == ToNat(Lane(b, 8, k)) IN IF j < 16 THEN Lane(a, 8, j) ELSE Zero(8)))
+    [] op = "shuffle" -> OKV(MapLanes(16, LAMBDA k : LET j == ToNat(Lane(c, 8, k)) IN IF j < 16 THEN Lane(a, 8, j) ELSE Lane(b, 8, j - 16)))
+    [] op = "bitselect" -> OKV(Or(And(a, c), And(b, Not(c))))
+    [] op = "andnot" -> OKV(And(a, Not(b))) [] op = "vnot" -> OKV(Not(a))
+    [] op = "vand" -> OKV(And(a, b)) [] op = "vor" -> OKV(Or(a, b)) [] op = "vxor" -> OKV(Xor(a, b))
+    \* pseudo-minimum / maximum: b < a ? b : a and a < b ? b : a, with the plain comparison (false on NaN, -0 = +0)
+    [] op = "pmin" -> OKV(MapLanes(n, LAMBDA k : LET x == Lane(a, w, k)  y == Lane(b, w, k) IN IF ~IsNaN(x) /\ ~IsNaN(y) /\ FLt(y, x) THEN y ELSE x))
+    [] op = "pmax" -> OKV(MapLanes(n, LAMBDA k : LET x == Lane(a, w, k)  y == Lane(b, w, k) IN IF ~IsNaN(x) /\ ~IsNaN(y) /\ FLt(x, y) THEN y ELSE x))
+    [] op \in {"convert_low_s", "convert_low_u"} -> OKV(MapLanes(2, LAMBDA k : ConvertFromInt(Lane(a, 32, k), signed, 64).v))
+    [] op \in {"trunc_sat_zero_s", "trunc_sat_zero_u"} -> OKV(MapLanes(2, LAMBDA k : TruncToInt(Lane(a, 64, k), 32, signed, TRUE).v) \o Zero(64))
+    [] op = "demote_zero" -> LET r == [k \in 0..1 |-> Demote(Lane(a, 64, k))] IN
+                             [v |-> MapLanes(2, LAMBDA k : IF IsNaNRes(r[k]) THEN Zero(32) ELSE r[k].v) \o Zero(64),
+                              nl |-> SelectSeq(<<0, 1>>, LAMBDA k : IsNaNRes(r[k])), lw |-> 32]
+    [] op = "promote_low" -> LET r == [k \in 0..1 |-> Promote(Lane(a, 32, k))] IN
+                             [v |-> MapLanes(2, LAMBDA k : IF IsNaNRes(r[k]) THEN Zero(64) ELSE r[k].v),
+                              nl |-> SelectSeq(<<0, 1>>, LAMBDA k : IsNaNRes(r[k])), lw |-> 64]
+    [] op = "splat" -> OKV(MapLanes(n, LAMBDA k : Wrap(a, w)))                    \* a = the scalar (i32 operands are wrapped to the lane)
+    [] op = "extract_s" -> OKV(SExt(Lane(a, w, idx % n), IF w = 64 THEN 64 ELSE 32))
+    [] op = "extract_u" -> OKV(ZExt(Lane(a, w, idx % n), IF w = 64 THEN 64 ELSE 32))
+    [] op = "replace" -> OKV(MapLanes(n, LAMBDA k : IF k = idx % n THEN Wrap(b, w) ELSE Lane(a, w, k)))
+
+(* what the vector definitions must satisfy among themselves *)
+VecLaw(op, w, a, b, c) ==
+  LET n == 128 \div w  r == VecEval(op, w, a, b, c) IN
+  /\ (op = "narrow_s") => \A k \in 0..(n - 1) : SExt(Lane(r.v, w \div 2, k), w) = Lane(a, w, k) \/ Lane(r.v, w \div 2, k) \in {MinS(w \div 2), MaxS(w \div 2)}
+  /\ (op = "extend_low_u") => VecEval("narrow_u", 2 * w, r.v, r.v, c).v = SubSeq(a, 1, 64) \o SubSeq(a, 1, 64) \/ w = 32      \* widening then narrowing gives the lanes back
+  /\ (op \in {"extmul_low_s", "extmul_low_u"}) =>
+        r.v = MapLanes(n \div 2, LAMBDA k : Mul(Lane(VecEval(IF op = "extmul_low_s" THEN "extend_low_s" ELSE "extend_low_u", w, a, b, c).v, 2 * w, k),
+                                                Lane(VecEval(IF op = "extmul_low_s" THEN "extend_low_s" ELSE "extend_low_u", w, b, a, c).v, 2 * w, k)))
+  /\ (op = "dot") => r.v = MapLanes(4, LAMBDA k : Add(Lane(VecEval("extmul_low_s", 16, a, b, c).v \o VecEval("extmul_high_s", 16, a, b, c).v, 32, 2 * k),
+                                                      Lane(VecEval("extmul_low_s", 16, a, b, c).v \o VecEval("extmul_high_s", 16, a, b, c).v, 32, 2 * k + 1)))
+  /\ (op = "bitmask") => (IsZero(r.v) <=> \A k \in 0..(n - 1) : Msb(Lane(a, w, k)) = 0)
+  /\ (op = "vshl") => r.v = MapLanes(n, LAMBDA k : Mul(Lane(a, w, k), ShlBy(One(w), IF Len(c) >= 32 THEN ToNat(SubSeq(c, 1, Log2(w))) ELSE 0)))
+  /\ (op = "bitselect") => r.v = Xor(b, And(Xor(a, b), c))
+  /\ (op = "shuffle" /\ \A k \in 0..15 : ToNat(Lane(c, 8, k)) < 16) => r.v = VecEval("swizzle", 8, a, c, c).v
+  /\ (op = "pmin") => \A k \in 0..(n - 1) : Lane(r.v, w, k) \in {Lane(a, w, k), Lane(b, w, k)}
+
 -----------------------------------------------------------------------------
 (* the dispatcher: c = [op, t (operand type), a, b (operands as bytes)] *)
 Eval(c) ==
@@ -299,6 +379,7 @@ Eval(c) ==
     [] op = "convert_s_f32" -> ConvertFromInt(a, TRUE, 32) [] op = "convert_u_f32" -> ConvertFromInt(a, FALSE, 32)
     [] op = "convert_s_f64" -> ConvertFromInt(a, TRUE, 64) [] op = "convert_u_f64" -> ConvertFromInt(a, FALSE, 64)
     [] op = "promote" -> Promote(a) [] op = "demote" -> Demote(a)
+    [] t = "v128" -> VecEval(op, c.w, a, b, BytesToBits(c.c))
 
 -----------------------------------------------------------------------------
 (* Laws: redundant characterisations that every evaluated case must satisfy.  They tie the definitions above to
@@ -308,6 +389,7 @@ Law(c) ==
   LET a == BytesToBits(c.a)  b == BytesToBits(c.b)  op == c.op  t == c.t  n == Len(a)  r == Eval(c)
       isInt == t \in {"i8", "i16", "i32", "i64"}  isF == t \in {"f32", "f64"}
       ok == "v" \in DOMAIN r IN
+  /\ (t = "v128") => VecLaw(op, c.w, a, b, BytesToBits(c.c))
   /\ (isInt /\ op \in {"div_u", "rem_u"} /\ ok) =>
         LET q == IntBin("div_u", a, b).v  m == IntBin("rem_u", a, b).v IN Add(Mul(q, b), m) = a /\ LtU(m, b)
   /\ (isInt /\ op \in {"div_s", "rem_s"} /\ ~IsZero(b) /\ ~(a = MinS(n) /\ b = Ones(n))) =>
@@ -366,6 +448,7 @@ Laws == pos > 0 => Law(Cases[pos])
 Out(c) == LET r == Eval(c) IN
           IF "trap" \in DOMAIN r THEN [id |-> c.id, trap |-> r.trap]
           ELSE IF "nan" \in DOMAIN r THEN [id |-> c.id, nan |-> TRUE]
+          ELSE IF "nl" \in DOMAIN r THEN [id |-> c.id, v |-> BitsToBytes(r.v), nl |-> r.nl, lw |-> r.lw]
           ELSE [id |-> c.id, v |-> BitsToBytes(r.v)]
 
 Init == pos = 0
